@@ -138,8 +138,11 @@ func (q *Query) groupBy(result *roaring.Bitmap, idx *Index) (finalResult []Resul
 					continue
 				}
 
+				fields := make([]ResultField, len(rg.fields), len(rg.fields)+1)
+				copy(fields, rg.fields)
+
 				newResultGroups = append(newResultGroups, resultGroup{
-					fields: append(rg.fields, ResultField{Column: gbf.Column, Value: v.Value}),
+					fields: append(fields, ResultField{Column: gbf.Column, Value: v.Value}),
 					result: result,
 				})
 			}
